@@ -38,6 +38,24 @@ impl XmlConverter {
         }
     }
 
+    /// Text and attribute values may only hold characters an XML document can
+    /// contain (the `Char` production): the writer would put anything else
+    /// into the output as is, which no parser accepts.
+    fn get_xml_chars(s: &str) -> std::result::Result<&str, Box<dyn Error>> {
+        let allowed = |c: char| {
+            matches!(c, '\t' | '\n' | '\r' | '\u{20}'..='\u{D7FF}' | '\u{E000}'..='\u{FFFD}' | '\u{10000}'..='\u{10FFFF}')
+        };
+        if s.chars().all(allowed) {
+            Ok(s)
+        } else {
+            Err(BuildError::new(
+                "XML text and attribute values can not contain control characters",
+                ErrorType::TypeFail,
+            )
+            .to_boxed())
+        }
+    }
+
     fn get_tuple_val(v: &Val) -> std::result::Result<&TupleFields, Box<dyn Error>> {
         if let Val::Tuple(fs) = v {
             Ok(fs)
@@ -119,7 +137,10 @@ impl XmlConverter {
                         if val.is_empty() {
                             continue;
                         }
-                        start = start.attr(name.as_ref(), Self::get_str_val(val.as_ref())?);
+                        start = start.attr(
+                            name.as_ref(),
+                            Self::get_xml_chars(Self::get_str_val(val.as_ref())?)?,
+                        );
                     }
                 }
                 if let Some((prefix, uri)) = ns {
@@ -138,10 +159,10 @@ impl XmlConverter {
                 w.write(XmlEvent::end_element())?;
             }
             if let Some(text) = text {
-                w.write(XmlEvent::characters(text))?;
+                w.write(XmlEvent::characters(Self::get_xml_chars(text)?))?;
             }
         } else if let Val::Str(s) = v {
-            w.write(XmlEvent::characters(s.as_ref()))?;
+            w.write(XmlEvent::characters(Self::get_xml_chars(s.as_ref())?))?;
         } else {
             return Err(BuildError::new(
                 "XML nodes must be a Tuple or a string",
